@@ -94,6 +94,16 @@ func (fc *FnCtx) staticBases(v ssa.Value, seen map[ssa.Value]bool) []sbase {
 		if !x.Heap && x.Parent() == fc.fn {
 			return []sbase{{root: fc.cellName(x)}}
 		}
+		if n, ok := fc.eng.sharedCell(x); ok {
+			fc.stateVar(n, u.SortOf(elem), false)
+			return []sbase{{root: n}}
+		}
+		return []sbase{{elem: elem}}
+	case *ssa.FreeVar:
+		if n, ok := fc.eng.sharedCell(x); ok {
+			fc.stateVar(n, u.SortOf(elem), false)
+			return []sbase{{root: n}}
+		}
 		return []sbase{{elem: elem}}
 	case *ssa.Global:
 		return []sbase{{root: "G!"}}
@@ -182,7 +192,13 @@ func (fc *FnCtx) instrWrites(in ssa.Instruction, ws *WriteSet, inOwnFn bool) {
 			ws.add(n)
 			ws.Types[n] = x.Type().Underlying().(*types.Pointer).Elem()
 		} else if x.Heap {
-			fc.ptrTargets(x.Type().Underlying().(*types.Pointer).Elem(), ws)
+			if n, ok := fc.eng.sharedCell(x); ok {
+				fc.stateVar(n, fc.eng.U.SortOf(x.Type().Underlying().(*types.Pointer).Elem()), false)
+				ws.add(n)
+				ws.Types[n] = x.Type().Underlying().(*types.Pointer).Elem()
+			} else {
+				fc.ptrTargets(x.Type().Underlying().(*types.Pointer).Elem(), ws)
+			}
 		}
 	case *ssa.Store:
 		tmp := newWS()
@@ -377,6 +393,12 @@ func (fc *FnCtx) callWritesDepth(c ssa.CallInstruction, depth int) *WriteSet {
 				return ws
 			}
 		}
+		if h, ok := libWriteSets[k]; ok {
+			if w := h(fc, c); w != nil {
+				ws.union(w)
+				return ws
+			}
+		}
 		if eff, ok := libEffects(k); ok {
 			for _, n := range eff {
 				if n == "*" {
@@ -459,6 +481,27 @@ func (fc *FnCtx) prescan() {
 	}
 	if any {
 		// only heap-like names matter
-		fc.volatile = vol
+		fc.volatileSet = vol
+		// volatile applies to code that may run after a go statement
+		fc.afterGo = map[*ssa.BasicBlock]bool{}
+		var visit func(b *ssa.BasicBlock)
+		visit = func(b *ssa.BasicBlock) {
+			if fc.afterGo[b] {
+				return
+			}
+			fc.afterGo[b] = true
+			for _, s := range b.Succs {
+				visit(s)
+			}
+		}
+		for _, b := range fc.fn.Blocks {
+			for _, in := range b.Instrs {
+				if _, ok := in.(*ssa.Go); ok {
+					for _, s := range b.Succs {
+						visit(s)
+					}
+				}
+			}
+		}
 	}
 }
